@@ -139,7 +139,9 @@ type Unit struct {
 	alloc0      string
 	locksUsed   bool
 	frozenHeaps   map[string]*types.Map // pointee heaps of "frozen" registries -> the registry's map type
-	rebinds       []string // clause locals bound by type after a rename (reported in the evidence)
+	rebinds       []string // clause locals bound by type after a rename, anchors and invariants found in inlined helpers (reported in the evidence)
+	preStale      bool     // a precondition of the unit's contract could not be evaluated: the body was verified without it
+	staleClauses  []string // clauses that no longer type-check against the code: dropped, undecided (reported)
 	distinctHeaps map[string]string // map-value heaps of "distinct" registries -> key sort
 	pendingMapWF  [][2]string       // heap versions (term, key sort) whose stored pointers still need the older-than-alloc fact
 }
@@ -367,6 +369,9 @@ type frame struct {
 	binders  int
 	cellSeq  int
 	lets     *[][2]string // let bindings of the enclosing quantifier body
+	parent   *frame          // the frame this one is inlined into (nil for the unit's own function)
+	via      ssa.Instruction // the call instruction of parent that was inlined
+	cur      ssa.Instruction // instruction being executed
 }
 
 func (fr *frame) obName(kind, detail string) string {
